@@ -16,40 +16,43 @@ Variable B H : N.
 Variable crc : bytes -> N.
 
 Inductive recx_result :=
-| XEof (r : reader) (skipped : N)
+| XEof (r : reader) (skipped : N) (partial : bool)   (* the file ended inside a fragmented record *)
 | XPanic
 | XRec (d : bytes) (r : reader) (skipped : N).
 
 Fixpoint read_record_loop_x (fuel : nat) (r : reader) (buf : bytes) (infrag : bool) (sk : N)
   : recx_result :=
   match fuel with
-  | O => XEof r sk
+  | O => XEof r sk infrag
   | S fuel' =>
       match read_physical B H crc r with
-      | PEof => XEof r sk
+      | PEof => XEof r sk infrag
       | PPanic => XPanic
       | PSkip r' => read_record_loop_x fuel' r' [] false (sk + 1)
       | PRec t d r' =>
-          if t =? T_FULL then XRec d r' sk
-          else if t =? T_FIRST then read_record_loop_x fuel' r' d true sk
+          (* a fragment dropped by the sequencing rules counts as a skipped record: a partial
+             record cut short by a new First/Full, a Middle/Last without the start of its record *)
+          if t =? T_FULL then XRec d r' (if infrag then sk + 1 else sk)
+          else if t =? T_FIRST then read_record_loop_x fuel' r' d true (if infrag then sk + 1 else sk)
           else if t =? T_MIDDLE then
             if infrag then read_record_loop_x fuel' r' (buf ++ d) true sk
-            else read_record_loop_x fuel' r' [] false sk
+            else read_record_loop_x fuel' r' [] false (sk + 1)
           else
             if infrag then XRec (buf ++ d) r' sk
-            else read_record_loop_x fuel' r' [] false sk
+            else read_record_loop_x fuel' r' [] false (sk + 1)
       end
   end.
 
 Definition read_record_x (r : reader) (sk : N) : recx_result :=
-  if (0 <? r_cpos r) && (r_flen r <=? r_cpos r) then XEof r sk
+  if (0 <? r_cpos r) && (r_flen r <=? r_cpos r) then XEof r sk false
   else read_record_loop_x (S (length (r_rest r))) r [] false sk.
 
 Record readx := mkRX {
   rx_records : list bytes;
   rx_panic : bool;
   rx_skipped : N;            (* num_corrupted_records_skipped *)
-  rx_intact : bool           (* has_read_entire_file: the cursor position equals the length *)
+  rx_intact : bool           (* has_read_entire_file: the cursor position equals the length and
+                                the file does not end inside a fragmented record *)
 }.
 
 Fixpoint read_all_loop_x (fuel : nat) (r : reader) (sk : N) : readx :=
@@ -57,7 +60,7 @@ Fixpoint read_all_loop_x (fuel : nat) (r : reader) (sk : N) : readx :=
   | O => mkRX [] false sk (r_cpos r =? r_flen r)
   | S fuel' =>
       match read_record_x r sk with
-      | XEof r' sk' => mkRX [] false sk' (r_cpos r' =? r_flen r')
+      | XEof r' sk' p => mkRX [] false sk' ((r_cpos r' =? r_flen r') && negb p)
       | XPanic => mkRX [] true sk false
       | XRec d r' sk' =>
           let x := read_all_loop_x fuel' r' sk' in
